@@ -26,6 +26,11 @@ CWD = os.getcwdb()
 DIRS = [[], ["a"], ["a", "b"], ["d"], ["a", "b", "c"], ["sp ace"], ["..."]]
 FILES = [["f.txt"], ["a", "g.txt"], ["a", "b", "h.txt"], ["d", "f.txt"], ["...", "x"]]
 _ENV = {}
+# layouts whose root NAME is hostile to pattern matching: name of the root, names of its siblings
+XLAYOUTS = {"brackets": ("pub[1]", ["pub1", "pub"]), "question": ("da?a", ["data", "dada"]),
+            "star": ("r*t", ["root", "rest", "rt"]), "odd": ("n\u00e9 .d.", ["n\u00e9 .d", "ne .d."])}
+XDIRS = [[], ["d"]]
+XFILES = [["a.txt"], ["b.txt"], ["d", "c.txt"], ["noext"]]
 
 
 def cstr(s: str) -> str:
@@ -66,6 +71,23 @@ def _env():
     os.makedirs(root2)
     with open(os.path.join(lonely, "keep.txt"), "w") as fh:
         fh.write("keep")
+    # further layouts: the ROOT's own name contains glob metacharacters / space / non-ASCII / a trailing dot, next
+    # to siblings that such a name would match as a pattern (pub[1] ~ pub1, da?a ~ data, r*t ~ root, rest)
+    xroots = {}
+    for lname, (rname, sibs) in XLAYOUTS.items():
+        home = os.path.join(base, "x_" + lname)
+        r = os.path.join(home, rname)
+        for d in XDIRS:
+            os.makedirs(os.path.join(r, *d), exist_ok=True)
+        for f in XFILES:
+            with open(os.path.join(r, *f), "w") as fh:
+                fh.write("public")
+        for sib in sibs:
+            os.makedirs(os.path.join(home, sib, "d"))
+            for f in (["secret.txt"], ["x.txt"], ["d", "deep.txt"]):
+                with open(os.path.join(home, sib, *f), "w") as fh:
+                    fh.write("SECRET")
+        xroots[lname] = r
     log = []
     state = {"on": False}
     watched = ("open", "os.listdir", "os.scandir", "os.mkdir", "os.rmdir", "os.remove", "os.rename", "os.chmod",
@@ -88,18 +110,40 @@ def _env():
                 log.append((kind, pb))
 
     sys.addaudithook(hook)
+
+    # os.stat / os.lstat are not audit events: wrap them (exists(), isdir(), the shell's stat()/list() end here)
+    def wrap(fn):
+        def stat(path, *a, **kw):
+            if state["on"] and isinstance(path, (str, bytes)):
+                try:
+                    pb = os.fsencode(path)
+                    if not (pb.startswith(ignore) or pb.endswith(b".py")):
+                        log.append(("stat", pb))
+                except Exception:
+                    pass
+            return fn(path, *a, **kw)
+        return stat
+
+    import twisted.python.filepath as fpm
+    os.stat, os.lstat = wrap(os.stat), wrap(os.lstat)
+    for name in ("stat", "lstat"):
+        if hasattr(fpm, name):
+            setattr(fpm, name, wrap(getattr(fpm, name)))
     from twisted.logger import globalLogBeginner
     try:
         globalLogBeginner.beginLoggingTo([lambda e: None], redirectStandardIO=False, discardBuffer=True)
     except Exception:
         pass
-    _ENV.update(base=base, root=root, root2=root2, lonely=lonely, log=log, state=state)
+    _ENV.update(base=base, root=root, root2=root2, lonely=lonely, xroots=xroots, log=log, state=state)
     return _ENV
 
 
 def _root_of(case):
     E = _env()
-    return E["root2"] if case.get("layout") == "lonely" else E["root"]
+    lay = case.get("layout")
+    if lay in E["xroots"]:
+        return E["xroots"][lay]
+    return E["root2"] if lay == "lonely" else E["root"]
 
 
 def _outside_snapshot(case):
@@ -111,9 +155,6 @@ def _outside_snapshot(case):
         if dp == root:
             dns[:] = []          # the root itself is not "outside" (RMD / may remove an empty root)
             continue
-        elif dp == E["root"] or dp == E["root2"]:
-            dns[:] = []          # the other layout's root is reset separately
-            fns = []
         out.add(dp)
         out.update(os.path.join(dp, fn) for fn in fns)
     return out
@@ -129,14 +170,22 @@ def _reset_tree():
     if not os.path.exists(keep):
         with open(keep, "w") as fh:
             fh.write("keep")
+    for r in [E["root"]] + list(E["xroots"].values()):
+        for d, ds, fs in os.walk(r, topdown=False):
+            for x in fs:
+                if x.startswith(("mk", "up")):
+                    os.remove(os.path.join(d, x))
+            for x in ds:
+                if x.startswith(("mk", "up")):
+                    shutil.rmtree(os.path.join(d, x), ignore_errors=True)
+    for r in E["xroots"].values():
+        for d in XDIRS:
+            os.makedirs(os.path.join(r, *d), exist_ok=True)
+        for f in XFILES:
+            if not os.path.exists(os.path.join(r, *f)):
+                with open(os.path.join(r, *f), "w") as fh:
+                    fh.write("public")
     root = E["root"]
-    for d, ds, fs in os.walk(root, topdown=False):
-        for x in fs:
-            if x.startswith(("mk", "up")):
-                os.remove(os.path.join(d, x))
-        for x in ds:
-            if x.startswith(("mk", "up")):
-                shutil.rmtree(os.path.join(d, x), ignore_errors=True)
     for d in DIRS:
         os.makedirs(os.path.join(root, *d), exist_ok=True)
     for f in FILES:
@@ -260,7 +309,10 @@ def impl(case) -> str:
             r = ftp.FTPShell(FilePath(case["root"]))._path(list(case["segs"]))
         except InsecurePath:
             return "X"
-        return "P:" + os.fsencode(r.path).hex()
+        try:
+            return "P:" + r.asTextMode().path.encode("latin-1").hex()     # one byte per code point, as in the model
+        except UnicodeError:
+            return "P?" + os.fsencode(r.path).hex()
     if k == "glob":
         from twisted.protocols import ftp
         return "T" if ftp._isGlobbingExpression([case["s"]]) else "F"
@@ -282,7 +334,7 @@ def oracle(case, obs):
     if k == "path":
         if obs == "X":
             return None
-        root = os.path.abspath(os.fsencode(case["root"]))
+        root = os.path.abspath(case["root"].encode("latin-1"))
         r = bytes.fromhex(obs[2:])
         rs, ps = [c for c in r.split(b"/") if c], [c for c in root.split(b"/") if c]
         if rs[:len(ps)] != ps or b".." in rs:
@@ -300,6 +352,8 @@ def oracle(case, obs):
             p = bytes.fromhex(h)
             real = os.path.realpath(p)
             inside = real.startswith(root + b"/")
+            if ev == "stat" and b"\x00" in p:
+                continue            # os.stat refuses the name itself before touching anything
             if b"\x00" in p or not (inside or real == root):
                 return Failure(case, f"{cmd}: the FTP server touched {p!r} ({ev}), outside its root {root!r}", "ftp-escape")
         # RMD removes one directory, DELE one file (IFTPShell.removeDirectory / removeFile)
@@ -325,6 +379,35 @@ PIECES = ["/", "//", ".", "..", "...", "a", "b", "c", "d", "f.txt", "g.txt", "\x
           "rootsecret", "secret.txt", "s.txt", "root", "é", "~", "%2e%2e", "a\x00", "..\x00", "x"]
 
 
+# byte sequences (one latin-1 code point per byte, as the server sees them) that are the UTF-8 encodings of characters
+# which Unicode normalisation (NFKC/NFKD) maps onto '.', '..' or '/': U+2024 ONE DOT LEADER, U+2025 TWO DOT LEADER,
+# U+FF0E FULLWIDTH FULL STOP, U+FE52 SMALL FULL STOP, U+FF0F FULLWIDTH SOLIDUS, U+2215 DIVISION SLASH, U+2044,
+# U+FF3C fullwidth backslash; plus overlong UTF-8 for '.', '/' and NUL
+def _u(ch):
+    return ch.encode("utf-8").decode("latin-1")
+
+
+CONFUSABLE_DOTDOT = [_u("\u2025"), _u("\uff0e\uff0e"), _u("\u2024\u2024"), _u("\ufe52\ufe52"), _u("\u2024\uff0e"),
+                     ".\xc0\xae", "\xc0\xae\xc0\xae", "\xe0\x80\xae\xe0\x80\xae", _u("\u2025") + "\x00"]
+CONFUSABLE_SEP = [_u("\uff0f"), _u("\u2215"), _u("\u2044"), _u("\uff3c"), "\xc0\xaf", "\xe0\x80\xaf", "\xc0\x80"]
+CONFUSABLE = CONFUSABLE_DOTDOT + CONFUSABLE_SEP + [_u("\u2024"), _u("\uff0e"), _u("\ufe52"), _u("\u00c5"), _u("A\u030a"),
+                                                  _u("\u212b"), _u("\ufb01le"), _u("\u1e9e"), _u("\u0130")]
+
+
+PIECES += CONFUSABLE
+
+
+def _confusable_escape(rng):
+    """what would be '../' * k + sibling if a later normalisation turned these names into '..' and '/'"""
+    dd = rng.choice(CONFUSABLE_DOTDOT)
+    target = rng.choice(["rootsecret/s.txt", "secret.txt", "roo/s.txt", "root.bak/s.txt", "rootsecret", "mk0", "rootsecret/mk1", ""])
+    k = rng.randrange(1, 4)
+    if rng.random() < 0.5:
+        return rng.choice(["", "/", "a/", "a/b/"]) + (dd + "/") * k + target
+    sep = rng.choice(CONFUSABLE_SEP)              # a single segment that normalises to a whole relative path
+    return rng.choice(["", "/", "a/"]) + sep.join([dd] * k + target.split("/"))
+
+
 def _rand_path(rng, maxn=6):
     out = ""
     for _ in range(rng.randrange(0, maxn)):
@@ -346,7 +429,8 @@ def _escape_path(rng):
 
 def _rand_cmd(rng, mkn):
     r = rng.random()
-    p = _escape_path(rng) if rng.random() < 0.3 else _rand_path(rng)
+    q = rng.random()
+    p = _escape_path(rng) if q < 0.25 else _confusable_escape(rng) if q < 0.45 else _rand_path(rng)
     while "\r\n" in p:
         p = p.replace("\r\n", "\n")
     if r < 0.22:
@@ -389,6 +473,30 @@ def _rename_session(rng):
         cmds.append(["RNTO", "mk2"])                 # a second RNTO without RNFR
     if rng.random() < 0.5:
         cmds.append(["NLST", rng.choice(["*", "mk1", "../mk*", "", "-l"])])
+    return cmds
+
+
+def _xroot_session(rng):
+    """ordinary commands (wildcards included) under a root whose own name is a pattern"""
+    args = ["*.txt", "*", "?.txt", "a.txt", "", "d", "d/*", "d/c.txt", "*/c.txt", "noext", "[ab].txt", "secret.txt", "x.txt",
+            "d/deep.txt", "../", ".", "*.t?t", "mk0", "up0", "/", "/d/", "b*"]
+    cmds = []
+    for _ in range(rng.randrange(1, 7)):
+        r = rng.random()
+        if r < 0.15:
+            cmds.append(["CWD", rng.choice(["d", "/", "..", "/d", "*", "d/.."])])
+        elif r < 0.2:
+            cmds.append(["CDUP"])
+        elif r < 0.3:
+            cmds.append([rng.choice(["MKD", "RMD"]), rng.choice(["", "d/"]) + f"mk{rng.randrange(2)}"])
+        elif r < 0.38:
+            cmds.append(["STOR", rng.choice(["", "d/"]) + f"up{rng.randrange(2)}"])
+        elif r < 0.45:
+            cmds.append(["DELE", rng.choice([f"up{rng.randrange(2)}", "d/up0", "*.txt"])])
+        elif r < 0.55:
+            cmds += [["RNFR", rng.choice(["up0", "a.txt", "*.txt", "mk0"])], ["RNTO", rng.choice(["mk1", "d/mk1", "up1"])]]
+        else:
+            cmds.append([rng.choice(["LIST", "LIST", "NLST", "SIZE", "MDTM", "RETR"]), rng.choice(args)])
     return cmds
 
 
@@ -450,6 +558,18 @@ def gen(rng, tier):
         cases.append({"k": "sess", "layout": "lonely", "cmds": _lonely_session(rng)})
     for _ in range(150 if quick else 1500):
         cases.append({"k": "sess", "cmds": _rename_session(rng)})
+    for lay in XLAYOUTS:
+        for _ in range(45 if quick else 500):
+            cases.append({"k": "sess", "layout": lay, "cmds": _xroot_session(rng)})
+        for cmd in ("LIST", "NLST", "SIZE", "RETR", "MDTM", "DELE", "CWD"):
+            for arg in ("*.txt", "*", "?.txt", "d/*"):
+                cases.append({"k": "sess", "layout": lay, "cmds": [[cmd, arg]]})
+    for dd in CONFUSABLE_DOTDOT + CONFUSABLE_SEP:
+        for cmd in ("CWD", "MKD", "RETR", "STOR", "LIST", "SIZE", "DELE", "RMD"):
+            cases.append({"k": "sess", "cmds": [[cmd, dd + "/rootsecret" + ("/mk0" if cmd in ("MKD", "STOR") else "/s.txt" if cmd in ("RETR", "SIZE", "DELE") else "")]]})
+        cases.append({"k": "sess", "cmds": [["CWD", "/" + dd + "/rootsecret"], ["RETR", "s.txt"], ["RNFR", "/f.txt"], ["RNTO", dd + "/rootsecret/mk1"]]})
+        cases.append({"k": "path", "root": "/srv/ftp", "segs": [dd, "other", "x"]})
+        cases.append({"k": "path", "root": "/srv/ftp", "segs": ["a", dd, dd, "etc"]})
     for c in range(256):
         cases.append({"k": "glob", "s": chr(c)})
         cases.append({"k": "glob", "s": "a" + chr(c) + "b"})
@@ -493,7 +613,7 @@ def to_coq(case):
             return None     # see below: bracket expressions are outside the modelled fragment
         return f"CGlob {cstr(case['s'])}"
     if k == "path":
-        if any(ord(c) > 127 for s in case["segs"] for c in s):
+        if any(ord(c) > 255 for s in case["segs"] for c in s):
             return None
         return f"CPath {coq_bytes(CWD)} {cstr(case['root'])} {segl(case['segs'])}"
     if any(c[0] == "NLST" for c in case["cmds"]) and any("[" in c[1] for c in case["cmds"] if len(c) > 1):
@@ -516,7 +636,8 @@ def to_coq(case):
             cmds.append(f"Nlst {cstr(c[1])}")
         else:
             cmds.append(f"Op {cstr(c[1])}")
-    dirs = coq_list([segl(d) for d in ([[]] if case.get("layout") == "lonely" else DIRS)], "(list bytes)")
+    lay = case.get("layout")
+    dirs = coq_list([segl(d) for d in ([[]] if lay == "lonely" else XDIRS if lay in XLAYOUTS else DIRS)], "(list bytes)")
     return f"CSess {dirs} {coq_list(cmds, 'cmd')}"
 
 
